@@ -195,7 +195,8 @@ xregex_match_sub_strdup(xregex_match_t xm, int i)
 {
     char *s = NULL;
 
-    assert(xm->xm_used);
+    if (!xm->xm_used)   /* nothing was matched yet: no such substring */
+        return NULL;
 
     if (xm->xm_result == 0 && i >= 0 && i < xm->xm_nmatch
                            && xm->xm_pmatch[i].rm_so != -1) {
